@@ -1,6 +1,7 @@
 import EupsModel.Lemmas.CacheInv
 import EupsModel.Lemmas.DbFile
 import EupsModel.Lemmas.OnePlace
+import EupsModel.Lemmas.OnePlaceAt
 /-! C06 — the database reflects exactly the history of declare / undeclare / tag operations.
 Property theorems only; the model is `Model/Db.lean` (commands) under `Model/Cache.lean` (histories of
 processes: every command reads through the product cache it loads), helper lemmas in `Lemmas/`.
@@ -321,6 +322,76 @@ theorem C06_resolves_to_last_assignment_partial (nst : Nat) (hn : 0 < nst) (dirs
   have := huniq r1 hr1 r2 hr2 (k1.2.1.trans k2.2.1.symm) (k1.2.2.1.trans k2.2.2.1.symm)
     (k1.2.2.2.1.trans k2.2.2.2.1.symm)
   rw [← k2.2.2.2.2, ← this, k1.2.2.2.2]
+
+/-- **A tag is one designation on the whole path — under the weakest hypotheses the proof needs** (round 3;
+`C06_tag_unique_on_path_partial` is the special case `Plain`).  `PlainHist w h`: every command of `h` is admitted in
+the world it starts from (`PlainAt`): a direct `Eups.assignTag` only while the (tag, product, flavor) is assigned
+nowhere but in the stack the command names (nowhere when it names none) — the complement of D32's class; a `declare`
+killed half way only while the tag it would assign (the one given, else `current`) is assigned nowhere — the
+complement of the kill window of `C06_tag_unique_on_path_crash_witness`; stack arguments on the path.  Direct
+assignments of fresh tags (`eups distrib install --tag` of a first version) and killed declarations of new products
+are thereby covered.  Both conditions are needed: the two negation witnesses violate exactly them. -/
+theorem C06_tag_unique_on_path_at_partial (nst : Nat) (hn : 0 < nst) (dirs : List DirEnt) (tfs : List TFile)
+    (h : List WCmd) (hp : PlainHist (World.init nst dirs tfs) h) :
+    ∀ r ∈ (runHistory (World.init nst dirs tfs) h).db.tags, ∀ q ∈ (runHistory (World.init nst dirs tfs) h).db.tags,
+      r.tag = q.tag → r.name = q.name → r.flav = q.flav → r = q := by
+  intro r hr q hq h1 h2 h3
+  have hs := (history_onePlaceAt nst hn dirs tfs h hp).1 r hr q hq h1 h2 h3
+  exact (dbInv_history true nst dirs tfs h).ku.tag r hr q hq (TagRec.sameKey_iff.mpr ⟨hs, h1, h2, h3⟩)
+
+/-- `PlainHist` of a history followed by one more command -/
+theorem plainHist_append {w : World} {h : List WCmd} {c : WCmd} (hp : PlainHist w h)
+    (hc : PlainAt (h.foldl step w) c) : PlainHist w (h ++ [c]) := by
+  induction h generalizing w with
+  | nil => exact ⟨hc, trivial⟩
+  | cons x xs ih => exact ⟨hp.1, ih hp.2 hc⟩
+
+/-- **Resolving the tag yields the version it was last assigned to** (path-wide), under the weakened hypotheses:
+after an admitted history, when `declare` with tag `t` (not a dry run, not killed, stack argument on the path)
+succeeds, whatever stack `findTaggedProduct` answers from over the whole path, it answers the version just declared. -/
+theorem C06_resolves_to_last_assignment_at_partial (nst : Nat) (hn : 0 < nst) (dirs : List DirEnt) (tfs : List TFile)
+    (h : List WCmd) (hp : PlainHist (World.init nst dirs tfs) h) (u : User) (a : DeclareArgs) (t : Tag)
+    (htag : a.tag = some t) (hna : a.noaction = false) (hstack : ∀ s, a.stack = some s → s < nst)
+    (hok : (stepG true (runHistory (World.init nst dirs tfs) h) (.run u (.declare a) none)).out = .ok)
+    (d : Decl)
+    (hd : (step (runHistory (World.init nst dirs tfs) h) (.run u (.declare a) none)).db.findTagged (allStacks nst)
+            a.name t a.self = some d) :
+    d.ver = a.ver := by
+  obtain ⟨s, hs, _⟩ := C06_last_assignment_wins nst dirs tfs h u a t htag hna hok
+  have hfold : ∀ (l : List WCmd) (w : World), (l.foldl step w).nst = w.nst := by
+    intro l
+    induction l with
+    | nil => intro w; rfl
+    | cons c cs ih => intro w; simp only [List.foldl_cons]; exact (ih _).trans (step_nst w c)
+  have hnst : (runHistory (World.init nst dirs tfs) h).nst = nst := hfold h _
+  have hplain : PlainHist (World.init nst dirs tfs) (h ++ [.run u (.declare a) none]) :=
+    plainHist_append hp ⟨by rw [show List.foldl step (World.init nst dirs tfs) h = runHistory (World.init nst dirs tfs) h from rfl, hnst]; exact hstack, Or.inl rfl⟩
+  have huniq := C06_tag_unique_on_path_at_partial nst hn dirs tfs (h ++ [.run u (.declare a) none]) hplain
+  have hrun : runHistory (World.init nst dirs tfs) (h ++ [.run u (.declare a) none])
+      = step (runHistory (World.init nst dirs tfs) h) (.run u (.declare a) none) := by
+    simp [runHistory, List.foldl_append]
+  rw [hrun] at huniq
+  obtain ⟨r1, hr1, k1⟩ := Spec.tagVer_some hs
+  obtain ⟨r2, hr2, k2⟩ := Spec.tagVer_some (findTagged_tagVer hd)
+  have := huniq r1 hr1 r2 hr2 (k1.2.1.trans k2.2.1.symm) (k1.2.2.1.trans k2.2.2.1.symm)
+    (k1.2.2.2.1.trans k2.2.2.2.1.symm)
+  rw [← k2.2.2.2.2, ← this, k1.2.2.2.2]
+
+/-- non-vacuity: a history with a direct `assignTag` of a tag that is assigned nowhere, and a `declare -t` of another
+fresh tag killed right after its first `Database` mutation, is admitted (neither is `Plain`) -/
+example :
+    let p : Name := [112]; let L : Flav := [76]; let stable : Tag := [115]; let beta : Tag := [98]
+    let dirs : List DirEnt := [⟨⟨0, relDir L p [49]⟩, p⟩, ⟨⟨1, relDir L p [50]⟩, p⟩]
+    let c1 : WCmd := .run 0 (.declare ⟨L, p, [49], some ⟨0, relDir L p [49]⟩, none, .dflt, none, false, false, []⟩) none
+    let c2 : WCmd := .run 0 (.assignTag L stable p [49] none) none
+    let c3 : WCmd := .run 0 (.declare ⟨L, p, [50], some ⟨1, relDir L p [50]⟩, none, .dflt, some beta, false, false, []⟩) (some 1)
+    PlainHist (World.init 2 dirs) [c1, c2, c3] ∧ ¬ Plain 2 c2 ∧ ¬ Plain 2 c3 := by
+  refine ⟨⟨⟨?_, Or.inl rfl⟩, ⟨?_, ?_⟩, ⟨?_, Or.inr ?_⟩, trivial⟩, by simp [Plain], by simp [Plain]⟩
+  · intro s hs; cases hs
+  · intro s hs; cases hs
+  · decide
+  · intro s hs; cases hs
+  · decide
 
 /-- **D32 (open).**  Path-wide, "resolving the tag yields the version it was last assigned to" is false for a
 direct `Eups.assignTag`: `declare p 1 -t stable` in stack 0, `declare p 2` in stack 1, `assignTag stable p 2`:
